@@ -38,6 +38,7 @@
 (*                   annotated type of its package                         *)
 (*   GroupDocLeaks - the doc comment of T reaches the next, undocumented   *)
 (*                   spec of its type group                                *)
+(*   OneTypePerCtor - a constructor function exempts one type only       *)
 (*   MutableByFieldName - @mutable fields indexed without their type     *)
 (*   RecvNameMemo  - what is known about T's receiver (its name) is kept   *)
 (*                   from the first method of T that is walked             *)
@@ -210,7 +211,9 @@ VisitVerdict(c) ==
                      ELSE IF c.stmt = "onHidden" THEN {} ELSE Range(prog.ann.ctors)
       \* when package u has a function NewT / MakeT it also declares a type of its own called T with those constructors (TwinCtors)
       twinExempt == "CtorByBareName" \in Deviations /\ prog.pkg = "u" /\ cur \in TwinCtors
-      exempt == (ownPkg /\ cur \in ctorsOfType) \/ twinExempt
+      \* d also declares T3 after T, with NewT as its constructor too (NewT builds both).
+      \* OneTypePerCtor: a constructor function is remembered for one type only, the one read last (T3)
+      exempt == ((ownPkg /\ cur \in ctorsOfType) \/ twinExempt) /\ ~("OneTypePerCtor" \in Deviations /\ cur = "NewT" /\ c.stmt \notin {"onT2", "onT2M"})
   IN IF c.stmt \in {"starPlain", "starPlainInc"}
        THEN (IF prog.ann.imm /\ recv \in {"T", "C"} /\ ~exempt THEN (IF c.stmt = "starPlain" THEN "IMM01" ELSE "IMM03") ELSE "none")
      ELSE IF c.stmt = "onTG" THEN (IF "GroupDocLeaks" \in Deviations /\ prog.ann.imm THEN "IMM01" ELSE "none")
